@@ -10,6 +10,14 @@ class StudentError(Exception):
     """user-defined Exception subclass"""
 
 
+class StudentKeyError(KeyError):
+    """user-defined subclass of a builtin exception that pedal treats specially"""
+
+
+class StudentValueError(ValueError):
+    """user-defined subclass of an ordinary builtin exception"""
+
+
 class BadStrError(Exception):
     """user-defined exception whose string conversion raises"""
 
@@ -85,6 +93,8 @@ _CATALOGUE = {
     'OSErrorNoArgs': (lambda: OSError(), OSError),
     'KeyErrorTwoArgs': (lambda: KeyError('k', 'extra'), KeyError),
     'StudentError': (lambda: StudentError("custom failure"), StudentError),
+    'StudentKeyError': (lambda: StudentKeyError("missing part"), StudentKeyError),
+    'StudentValueError': (lambda: StudentValueError("bad part"), StudentValueError),
     'EmptyMessage': (lambda: StudentError(), StudentError),
     'NonStrArgs': (lambda: StudentError(42, [1, 2], None), StudentError),
     'FalsyError': (lambda: FalsyError("falsy"), FalsyError),
@@ -104,7 +114,7 @@ ORDINARY = ['ValueError', 'KeyError', 'ZeroDivisionError', 'IndexError', 'TypeEr
             'AttributeError', 'NameError', 'OSError', 'OSError2', 'FileNotFoundError',
             'StopIteration', 'AssertionError', 'RecursionError', 'MemoryError', 'ImportError',
             'TimeoutErrorStudent', 'UnicodeDecodeError',
-            'StudentError', 'EmptyMessage', 'NonStrArgs', 'FalsyError', 'EmptyCollectionError',
+            'StudentError', 'StudentKeyError', 'StudentValueError', 'EmptyMessage', 'NonStrArgs', 'FalsyError', 'EmptyCollectionError',
             'Exception', 'RuntimeError', 'LookupError', 'ArithmeticError', 'NotImplementedError',
             'KeyErrorNoArgs', 'ValueErrorNoArgs', 'IndexErrorNoArgs', 'OSErrorNoArgs', 'KeyErrorTwoArgs']
 BROKEN = ['BadStrError', 'BadReprError', 'BadBothError']
